@@ -95,7 +95,7 @@ def run_cases(binp, S, cases, flavour="default", shim=True, timeout=900):
     for c in cases:
         lines.append("id=%d len=%d nsend=%d nrecv=%d nshm=%d faults=%s level=%s%s" % (
             c["id"], c["len"], c.get("nsend", 0), c.get("nrecv", 0), c.get("nshm", 0), c.get("faults", ""), c.get("level", "platform"),
-            (" prefail=1" if c.get("prefail") else "") + ((" rintr=%d" % c["rintr"]) if c.get("rintr") else "") + (" samereg=1" if c.get("samereg") else "")))
+            (" prefail=1" if c.get("prefail") else "") + ((" rintr=%d" % c["rintr"]) if c.get("rintr") else "") + (" samereg=1" if c.get("samereg") else "") + (" late=1" if c.get("late") else "")))
     env = {}
     if S is not None:
         env["VSHIM_SNDBUF"] = S
